@@ -34,7 +34,7 @@ ASSUMPTIONS = [
 def budget(tier):
     if tier == "quick":
         return dict(examples=25, shards=16, shrink_calls=30)
-    return dict(examples=150, shards=16, shrink_calls=300)
+    return dict(examples=120, shards=16, shrink_calls=300)
 
 
 @st.composite
